@@ -263,7 +263,10 @@ pub fn op_hand(mode: &str, np: usize, script: &str) -> String {
     std::fs::create_dir_all(&dir).unwrap();
     std::env::set_current_dir(&dir).unwrap();
     let script_owned: Vec<String> = script.split(';').map(|s| s.to_string()).collect();
-    let mode = mode.to_string();
+    // "s-" in front of the mode: the download directory is not clean - under the name of every piece the task is asked to
+    // fetch lies a stale, partial file (an interrupted earlier run); it is put back before every step until the piece is stored
+    let stale_on = mode.starts_with("s-");
+    let mode = mode.trim_start_matches("s-").to_string();
     let r = catch(|| {
         // one blocking thread: file operations of the task (tokio::fs) and the barrier below share one FIFO queue
         let rt = tokio::runtime::Builder::new_current_thread().enable_all().start_paused(true).max_blocking_threads(1).build().unwrap();
@@ -286,6 +289,7 @@ pub fn op_hand(mode: &str, np: usize, script: &str) -> String {
             let mut task = tokio::spawn(async move { handler.verif_run_mem(theirs).await });
             let mut env = Env { cmds: cmd_rx, peer: ours, rbuf: vec![], out: vec![], terminated: false, progress: false, harness_files: HashMap::new() };
             let mut files: HashMap<String, Vec<u8>> = HashMap::new();
+            let mut stale: HashMap<String, Vec<u8>> = HashMap::new();
             let mut results: Vec<String> = vec![];
             // let the task start (and arm its timers) at virtual time 0
             for _ in 0..6 {
@@ -297,6 +301,16 @@ pub fn op_hand(mode: &str, np: usize, script: &str) -> String {
                     None => (ev.as_str(), "-"),
                 };
                 let mut reply = Some(parse_reply(reply_tok));
+                if stale_on {
+                    if let Some(Reply::Req(i, l, true, _)) = &reply {
+                        let c = content(*i, *l);
+                        stale.entry(hash_to_string(&piece_hash(*i, *l, true)) + ".piece").or_insert_with(|| c[..c.len() / 3].to_vec());
+                    }
+                    for (n, d) in stale.iter() {
+                        std::fs::write(n, d).unwrap();
+                        files.insert(n.clone(), d.clone());
+                    }
+                }
                 // inject
                 if !env.terminated {
                     if body == "s" {
@@ -379,6 +393,8 @@ pub fn op_hand(mode: &str, np: usize, script: &str) -> String {
                     env.terminated = true;
                 }
                 env.note_new_files(&mut files);
+                // a stale file that has been replaced by a stored piece is not put back
+                stale.retain(|n, d| files.get(n) == Some(d));
                 // every save must be observed anew, also when the same piece is stored twice
                 for n in files.keys().chain(env.harness_files.keys()) {
                     let _ = std::fs::remove_file(n);
@@ -739,6 +755,7 @@ pub fn gen_script(r: &mut Rng, flavor: &str) -> String {
         evs.push(ev);
     }
     // x: events must be fatal for the frame decoder; "0000000109" is an unknown id (skipped) → replace
+    let mode = if (flavor == "C01" || flavor == "C10") && r.chance(1, 3) { format!("s-{}", mode) } else { mode };
     format!("hand {} {} {}", mode, np, evs.join(";"))
 }
 
